@@ -313,6 +313,111 @@ func readerOf(info *types.Info, body *ast.BlockStmt, ipIs func(ast.Expr) bool) r
 	return rm
 }
 
+// readerOfDelegating: readerOf, or — when the body hands the decoding to a function of the
+// same package that takes the instruction pointer and returns the new one
+// (`a, ip = program.operand(ip)`) — the analysis of that function with its parameter standing
+// for the instruction pointer; the advance is the constant its returned offset adds.
+func readerOfDelegating(p *core.Program, info *types.Info, body *ast.BlockStmt, ipIs func(ast.Expr) bool) readerModel {
+	rm := readerOf(info, body, ipIs)
+	if rm.ok || rm.narrow {
+		return rm
+	}
+	var out *readerModel
+	ast.Inspect(body, func(n ast.Node) bool {
+		as, ok := n.(*ast.AssignStmt)
+		if !ok || len(as.Rhs) != 1 || out != nil {
+			return true
+		}
+		call, ok := eng.Unparen(as.Rhs[0]).(*ast.CallExpr)
+		if !ok {
+			return true
+		}
+		fn := eng.CalleeOf(info, call)
+		if fn == nil {
+			return true
+		}
+		_, hfd := p.DeclOf(fn)
+		if hfd == nil || hfd.Body == nil || hfd.Type.Params == nil {
+			return true
+		}
+		argK, resJ := -1, -1
+		for i, a := range call.Args {
+			if ipIs(a) {
+				argK = i
+			}
+		}
+		for j, l := range as.Lhs {
+			if ipIs(l) {
+				resJ = j
+			}
+		}
+		if argK < 0 || resJ < 0 {
+			return true
+		}
+		var param types.Object
+		k := 0
+		for _, f := range hfd.Type.Params.List {
+			for _, nm := range f.Names {
+				if k == argK {
+					param = info.Defs[nm]
+				}
+				k++
+			}
+		}
+		if param == nil {
+			return true
+		}
+		isParam := func(x ast.Expr) bool {
+			id, ok := eng.Unparen(x).(*ast.Ident)
+			return ok && info.Uses[id] == param
+		}
+		sub := readerOf(info, hfd.Body, isParam)
+		if sub.narrow {
+			out = &sub
+			return true
+		}
+		if sub.order == "" {
+			return true
+		}
+		// the new offset: param + c on the decoding return (a return of the bare parameter is
+		// the truncated case, which consumes nothing)
+		adv := int64(-1)
+		okRet := true
+		ast.Inspect(hfd.Body, func(m ast.Node) bool {
+			if _, isLit := m.(*ast.FuncLit); isLit {
+				return false
+			}
+			rs, ok := m.(*ast.ReturnStmt)
+			if !ok || resJ >= len(rs.Results) {
+				return true
+			}
+			e := eng.Unparen(rs.Results[resJ])
+			if isParam(e) {
+				return true
+			}
+			if b, ok := e.(*ast.BinaryExpr); ok && b.Op == token.ADD && isParam(b.X) {
+				if tv, ok := info.Types[b.Y]; ok && tv.Value != nil {
+					if v, ok := constant.Int64Val(tv.Value); ok && (adv < 0 || adv == v) {
+						adv = v
+						return true
+					}
+				}
+			}
+			okRet = false
+			return true
+		})
+		if okRet && adv >= 0 {
+			sub.advance, sub.ok, sub.why = adv, true, ""
+			out = &sub
+		}
+		return true
+	})
+	if out != nil {
+		return *out
+	}
+	return rm
+}
+
 // codeIndexOffset: e is code[ip+k] (k constant ≥ 0).
 func codeIndexOffset(info *types.Info, e ast.Expr, ipIs func(ast.Expr) bool) (int64, bool) {
 	ix, ok := eng.Unparen(e).(*ast.IndexExpr)
@@ -475,7 +580,7 @@ func offsetRules(p *core.Program, r *core.Report, e *engines) {
 		return
 	}
 	vmIP := func(x ast.Expr) bool { return isNamedField(vinfo, x, "ip") }
-	rd := readerOf(vinfo, argFd.Body, vmIP)
+	rd := readerOfDelegating(p, vinfo, argFd.Body, vmIP)
 	if !rd.ok {
 		und("vm.(VM).arg/layout", p.Pos(argFd.Pos()), rd.why)
 		return
@@ -509,7 +614,7 @@ func offsetRules(p *core.Program, r *core.Report, e *engines) {
 				id, ok := eng.Unparen(x).(*ast.Ident)
 				return ok && id.Name == "ip"
 			}
-			dr := readerOf(vinfo, lit.Body, dIP)
+			dr := readerOfDelegating(p, vinfo, lit.Body, dIP)
 			if !dr.ok {
 				und("vm.(Program).Disassemble/operand reader", p.Pos(lit.Pos()), dr.why)
 			} else {
